@@ -521,7 +521,7 @@ def lib_property(prop, tier, seed):
             rep.undecided.append({"obligation": r["name"], "reason": r.get("reason") or "unknown"})
     rep.samples = [{"obligation": r["name"], "goal": r["goal"], "verdict": r["status"]} for r in recs[:4]]
     t0 = time.time()
-    cases = libprops.cases(tier, seed)
+    cases = libprops.cases(tier, seed, focus=bool(rep.undecided))
     outs = libprops.run_real(cases, root)
     distinct, fails = set(), 0
     for c, o in zip(cases, outs):
